@@ -1348,3 +1348,48 @@ M("C10-due-requeues-pending", "C10", [(DRIVE, _SQ_OLD, '''        self.session.r
 import glob as _glob, os as _os
 for _p in sorted(_glob.glob(_os.path.join(_os.path.dirname(_os.path.abspath(__file__)), "refactors", "rf2", "*.diff"))):
     RF("RF2-" + _os.path.basename(_p)[:-5], ALL19, [("@patch", "selftest/refactors/rf2/" + _os.path.basename(_p), "")])
+
+# ---------------------------------------------------------------------------------------------- independently seeded breaking changes (seeded/*/patch.diff)
+# each must keep failing the named obligation of its own property's check
+M("SEED-C01-a", ["C01"], [("@patch", "seeded/C01-a/patch.diff", "")], ["C01/replay/pending_control"])
+M("SEED-C01-b", ["C01"], [("@patch", "seeded/C01-b/patch.diff", "")], ["C01/replay/arena-order/retained/ack_packet/swap_remove"])
+M("SEED-C02-a", ["C02"], [("@patch", "seeded/C02-a/patch.diff", "")], ["C02/order/retained/ack_packet/swap_remove"])
+M("SEED-C02-b", ["C02"], [("@patch", "seeded/C02-b/patch.diff", "")], ["C02/ANCHOR-LOST/once/re-arm"])
+M("SEED-C03-a", ["C03"], [("@patch", "seeded/C03-a/patch.diff", "")], ["C03/rel/after-removal#1"])
+M("SEED-C03-b", ["C03"], [("@patch", "seeded/C03-b/patch.diff", "")], ["C03/wire/rearmed"])
+M("SEED-C04-a", ["C04"], [("@patch", "seeded/C04-a/patch.diff", "")], ["C04/ack/replayed-whole"])
+M("SEED-C04-b", ["C04"], [("@patch", "seeded/C04-b/patch.diff", "")], ["C04/once/deliver-implies-recorded"])
+M("SEED-C05-a", ["C05"], [("@patch", "seeded/C05-a/patch.diff", "")], ["C05/reset/before-any-failure"])
+M("SEED-C05-b", ["C05"], [("@patch", "seeded/C05-b/patch.diff", "")], ["C05/reset/unconditional"])
+M("SEED-C06-a", ["C06"], [("@patch", "seeded/C06-a/patch.diff", "")], ["C06/inc/only-on-failure/PubRec"])
+M("SEED-C06-b", ["C06"], [("@patch", "seeded/C06-b/patch.diff", "")], ["C06/resume/window-minus-inflight"])
+M("SEED-C07-a", ["C07"], [("@patch", "seeded/C07-a/patch.diff", "")], ["C07/fresh/pending_release"])
+M("SEED-C07-b", ["C07"], [("@patch", "seeded/C07-b/patch.diff", "")], ["C07/fresh/pending_release"])
+M("SEED-C08-a", ["C08"], [("@patch", "seeded/C08-a/patch.diff", "")], ["C08/varint/overlong"])
+M("SEED-C08-b", ["C08"], [("@patch", "seeded/C08-b/patch.diff", "")], ["C08/panic/de::packet_reader::PacketReader::<'a>::receive_buffer/call:index_mut#1"])
+M("SEED-C09-a", ["C09"], [("@patch", "seeded/C09-a/patch.diff", "")], ["C09/varint/encoded-len"])
+M("SEED-C09-b", ["C09"], [("@patch", "seeded/C09-b/patch.diff", "")], ["C09/bits/connect/will-flag"])
+M("SEED-C10-a", ["C10"], [("@patch", "seeded/C10-a/patch.diff", "")], ["C10/due/depends-only-on-keepalive-state"])
+M("SEED-C10-b", ["C10"], [("@patch", "seeded/C10-b/patch.diff", "")], ["C10/const/lead-positive"])
+M("SEED-C11-a", ["C11"], [("@patch", "seeded/C11-a/patch.diff", "")], ["C11/fatal/read_packet/fill_packet_reader#1"])
+M("SEED-C11-b", ["C11"], [("@patch", "seeded/C11-b/patch.diff", "")], ["C11/fatal-inbound/disconnect-arm"])
+M("SEED-C12-a", ["C12"], [("@patch", "seeded/C12-a/patch.diff", "")], ["C12/reset/send-progress-before-handshake"])
+M("SEED-C12-b", ["C12"], [("@patch", "seeded/C12-b/patch.diff", "")], ["C12/reset/reader-field/length_bytes"])
+M("SEED-C13-a", ["C13"], [("@patch", "seeded/C13-a/patch.diff", "")], ["C13/progress/perform_outbound_step/write_all#1"])
+M("SEED-C13-b", ["C13"], [("@patch", "seeded/C13-b/patch.diff", "")], ["C13/atomic/deliver/drive_packet#1"])
+M("SEED-C14-a", ["C14"], [("@patch", "seeded/C14-a/patch.diff", "")], ["C14/adv/limit-honoured"])
+M("SEED-C14-b", ["C14"], [("@patch", "seeded/C14-b/patch.diff", "")], ["C14/tx/perform_outbound_step/write_current#1"])
+M("SEED-C15-a", ["C15"], [("@patch", "seeded/C15-a/patch.diff", "")], ["C15/look-ahead/unknown-length"])
+M("SEED-C15-b", ["C15"], [("@patch", "seeded/C15-b/patch.diff", "")], ["C15/write/no-interleave/Control"])
+M("SEED-C17-a", ["C17"], [("@patch", "seeded/C17-a/patch.diff", "")], ["C17/base/scratch_space"])
+M("SEED-C17-b", ["C17"], [("@patch", "seeded/C17-b/patch.diff", "")], ["C17/slots/quota-after-enqueue"])
+M("SEED-C18-a", ["C18"], [("@patch", "seeded/C18-a/patch.diff", "")], ["C18/final-ack/PubRec/reason-always-checked"])
+M("SEED-C18-b", ["C18"], [("@patch", "seeded/C18-b/patch.diff", "")], ["C18/invalidate/on-every-fresh-session"])
+M("SEED-C19-a", ["C19"], [("@patch", "seeded/C19-a/patch.diff", "")], ["C19/coverage/valid_for/WithCorrelation"])
+M("SEED-C19-b", ["C19"], [("@patch", "seeded/C19-b/patch.diff", "")], ["C19/qos/downgrade-guard"])
+M("SEED-C20-a", ["C20"], [("@patch", "seeded/C20-a/patch.diff", "")], ["C20/target/topic"])
+M("SEED-C20-b", ["C20"], [("@patch", "seeded/C20-b/patch.diff", "")], ["C20/publication/OwnedResponseTarget/correlation"])
+
+# third round: property-centred behaviour-preserving refactorings (five per property, around that property's anchors)
+for _p in sorted(_glob.glob(_os.path.join(_os.path.dirname(_os.path.abspath(__file__)), "refactors", "rf3", "*.diff"))):
+    RF("RF3-" + _os.path.basename(_p)[:-5], ALL19, [("@patch", "selftest/refactors/rf3/" + _os.path.basename(_p), "")])
